@@ -60,15 +60,31 @@ func (x *X) kindOf(t types.Type) kind {
 			return kBytes
 		}
 	case *types.Struct:
-		return kStruct
+		if inModule(t) {
+			return kStruct
+		}
 	case *types.Pointer:
-		if _, ok := u.Elem().Underlying().(*types.Struct); ok {
+		if _, ok := u.Elem().Underlying().(*types.Struct); ok && inModule(u.Elem()) {
 			return kPtrStruct
 		}
 	case *types.Interface:
 		if t.String() == "error" {
 			return kError
 		}
+	}
+	return kOther
+}
+
+// inModule: a named type declared in the repository (standard-library structs such as sync.RWMutex are not modelled).
+func inModule(t types.Type) bool {
+	n, ok := t.(*types.Named)
+	return ok && n.Obj().Pkg() != nil && strings.HasPrefix(n.Obj().Pkg().Path()+"/", modPath)
+}
+
+// fieldKind: like kindOf, but a pointer field is never representable (it would alias).
+func (x *X) fieldKind(t types.Type) kind {
+	if k := x.kindOf(t); k != kPtrStruct {
+		return k
 	}
 	return kOther
 }
@@ -126,7 +142,9 @@ func (x *X) needStruct(n *types.Named) {
 	x.structs[n] = true
 	st := n.Underlying().(*types.Struct)
 	for i := 0; i < st.NumFields(); i++ { // dependencies first
-		x.leanType(st.Field(i).Type(), false)
+		if x.fieldKind(st.Field(i).Type()) != kOther {
+			x.leanType(st.Field(i).Type(), false)
+		}
 	}
 	x.order = append(x.order, n)
 }
@@ -164,15 +182,24 @@ func (x *X) structDef(n *types.Named) string {
 	fmt.Fprintf(&sb, "structure %s where\n", name)
 	for i := 0; i < st.NumFields(); i++ {
 		f := st.Field(i)
+		if x.fieldKind(f.Type()) == kOther { // e.g. sync.RWMutex, *clients.Clients: not representable, never read by translated code
+			fmt.Fprintf(&sb, "  -- field %s : %s omitted\n", f.Name(), f.Type().String())
+			continue
+		}
 		fmt.Fprintf(&sb, "  %s : %s\n", leanIdent(f.Name()), x.leanType(f.Type(), false))
 	}
 	sb.WriteString("deriving DecidableEq, Repr\n\n")
 	fmt.Fprintf(&sb, "def %s.zero : %s :=\n  { ", name, name)
+	first := true
 	for i := 0; i < st.NumFields(); i++ {
 		f := st.Field(i)
-		if i > 0 {
+		if x.fieldKind(f.Type()) == kOther {
+			continue
+		}
+		if !first {
 			sb.WriteString(", ")
 		}
+		first = false
 		fmt.Fprintf(&sb, "%s := %s", leanIdent(f.Name()), x.zero(f.Type()))
 	}
 	sb.WriteString(" }\n\n")
